@@ -36,7 +36,7 @@ func init() { register("C09", c09{}) }
 
 func (c09) Prepare(string) { env.Pool() }
 
-var scalarMixes = []string{"random", "random", "small10", "small9", "zeros", "edge", "carry", "allsame", "u64"}
+var scalarMixes = []string{"random", "random", "small10", "small9", "zeros", "edge", "carry", "allsame", "u64", "complement"}
 var pointMixes = []string{"pool", "pool", "dups", "negpairs", "identity", "reprs", "one"}
 var innerCs = []int{4, 5, 6, 7, 8, 9, 10, 11, 12, 13, 14, 15, 16}
 
@@ -195,6 +195,13 @@ func genScalars(mix string, seed uint64, n int) []*big.Int {
 			out[i] = genScalarClass(r, r.Intn(13))
 		case "carry":
 			out[i] = genScalarClass(r, r.Pick([]int{9, 9, 10, 7, 4}))
+		case "complement":
+			// pairs (s, r-s): with duplicated points the sum cancels to the identity
+			if i%2 == 1 {
+				out[i] = new(big.Int).Mod(new(big.Int).Sub(refmodel.R, out[i-1]), refmodel.R)
+			} else {
+				out[i] = genScalarClass(r, r.Pick([]int{0, 0, 8, 11, 4}))
+			}
 		case "allsame":
 			out[i] = same
 		case "u64":
